@@ -697,4 +697,37 @@ theorem range_bracket (F : (Var → Rat) → Prop) (x ymin ymax : Var → Rat) (
   · split at h1 <;> split at h1 <;> grind
   · split at h2 <;> split at h2 <;> grind
 
+/-! ## tidy_inverse uncertainty propagation -/
+
+theorem foldl_stepElem_other (rows : List RowId) (es : List BalEntry) (u : Nat → List Rat) (i : Nat) (p : Nat)
+    (hp : (rows.getD i default).primary = p)
+    (hes : ∀ en ∈ es, en.target ≠ .element p) : (es.foldl (stepElem rows) u) i = u i := by
+  induction es generalizing u with
+  | nil => rfl
+  | cons en es ih =>
+    rw [List.foldl_cons, ih _ (fun e he => hes e (by simp [he]))]
+    have := hes en (by simp)
+    unfold stepElem
+    cases h : en.target with
+    | row m => rfl
+    | element q =>
+      simp only
+      have hq : q ≠ p := fun hqp => this (by rw [h, hqp])
+      rw [if_neg]; intro hc; exact hq (hc.1.symm.trans hp)
+
+theorem foldl_stepRow_other (rows : List RowId) (es : List BalEntry) (u : Nat → List Rat) (i : Nat)
+    (hes : ∀ en ∈ es, ∀ m, en.target = .row m → i ≠ rows.findIdx (fun r => r.master = m)) :
+    (es.foldl (stepRow rows) u) i = u i := by
+  induction es generalizing u with
+  | nil => rfl
+  | cons en es ih =>
+    rw [List.foldl_cons, ih _ (fun e he => hes e (by simp [he]))]
+    unfold stepRow
+    cases h : en.target with
+    | element q => rfl
+    | row m =>
+      simp only
+      rw [if_neg]; intro hc; exact hes en (by simp) m h hc.1
+
+
 end PhreeqcVerif.Inverse
